@@ -2,8 +2,8 @@
 from harness import check, replay
 
 LENSES = {
-    "quick": ["subs_tensor", "gauss_subs", "subs_lazy", "subs_chain", "binder_indep", "core_stackcat"],
-    "thorough": ["subs_tensor", "gauss_subs", "subs_lazy", "subs_chain", "binder_indep", "core_stackcat"],
+    "quick": ["subs_tensor", "gauss_subs", "subs_lazy", "subs_chain", "binder_indep", "core_stackcat", "delta_multi"],
+    "thorough": ["subs_tensor", "gauss_subs", "subs_lazy", "subs_chain", "binder_indep", "core_stackcat", "delta_multi"],
 }
 
 
